@@ -26,6 +26,9 @@ import c16_http
 
 STREAM = "bbb"
 TRACKS = {"v": ("bbb_v7", "m4v"), "a": ("bbb_a1", "m4a"), "t": ("bbb_t1", "m4s")}
+# the same options sent to another stream in between (harness/CHECKLIST.md section 1): the counters live in the
+# session, keyed by media type and code - video and audio requests may go to `tears` (no text track there)
+OTHER = {"v": ("tears", "tears_v1", "m4v"), "a": ("tears", "tears_a1", "m4a")}
 CODES = [404, 410, 503, 504, 500, 599, 499, 400]
 PARAM = {"v": "verr", "a": "aerr", "t": "terr", "m": "merr"}
 
@@ -76,6 +79,11 @@ def gen_media_case(rng, nseg: dict) -> dict:
         else:
             seg = None                                       # $Time$ addressing
         reqs.append({"u": u, "seg": seg, "bare": rng.random() < .12})
+    # every third case: some requests go to the other stream (segment numbers 1..nseg exist there too)
+    if rng.random() < .34:
+        for r in reqs:
+            if r["u"] in OTHER and rng.random() < .4:
+                r["s"] = OTHER[r["u"]][0]
     case["reqs"] = reqs
     case["single"] = single
     return case
@@ -140,9 +148,12 @@ def request_url(case: dict, r: dict) -> str:
             q.append(["update", str(r["seg"])])
         return c16_http.build_url(f"/dash/live/{STREAM}/hand_made.mpd", q)
     name, ext = TRACKS[r["u"]]
+    stream = STREAM
+    if r.get("s"):
+        stream, name, ext = OTHER[r["u"]]
     if r["seg"] is None:
-        return c16_http.build_url(f"/dash/vod/{STREAM}/{name}/time/0.{ext}", q)
-    return c16_http.build_url(f"/dash/vod/{STREAM}/{name}/{r['seg']}.{ext}", q)
+        return c16_http.build_url(f"/dash/vod/{stream}/{name}/time/0.{ext}", q)
+    return c16_http.build_url(f"/dash/vod/{stream}/{name}/{r['seg']}.{ext}", q)
 
 
 def run_real(app, clock, case: dict) -> list:
@@ -224,6 +235,8 @@ def oracle(case: dict, real: list) -> list:
         code, (k, v) = case[key[0]][0]
         u = {"verr": "v", "aerr": "a", "terr": "t", "merr": "m"}[key[0]]
         hits = [i for i, r in enumerate(case["reqs"]) if r["u"] == u and code in addressed(case, r)]
+        if len({case["reqs"][i].get("s") for i in hits}) > 1:
+            hits = []       # the property does not say whether two streams share the count: left to the model comparison
         n = case["failures"]
         for j, i in enumerate(hits):
             status, synthetic = real[i]
